@@ -52,7 +52,8 @@ FIELD_KIND = {"works_for": ("person", "org", "single"), "head_of": ("chief", "or
               "wholly_owned_by": ("org", "org", "list"), "under": ("unit", "org", "list"),
               "chairs": ("chair", "org", "single"), "attends": ("delegate", "org", "list"),
               "leads": ("convener", "org", "list"), "runs": ("boss", "org", "single"),
-              "attendees": ("org", "attendee", "list"), "guides": ("chair", "org", "list"), "sees": ("delegate", "org", "list")}
+              "attendees": ("org", "attendee", "list"), "guides": ("chair", "org", "list"), "sees": ("delegate", "org", "list"),
+              "shows": ("convener", "org", "list")}
 
 
 def gen_population(rng):
